@@ -12,6 +12,7 @@ Enumerated completely:
   token / id, pairs over the tokenizer's own boundary alphabet, unknown tokens / ids; corner-first prefix for all pairs
 """
 import hashlib
+import json
 import itertools
 import re
 
@@ -558,6 +559,39 @@ def task(t, res):
         for g in t["gs"]:
             case_legacy(res, t["mode"], g, t["tier"])
         case_legacy_prefix(res)
+    elif part == "hashseed_child":
+        # "a token's id never changes": not with the interpreter's hash seed either - the layout is judged in a child with another seed
+        import os
+        import subprocess
+        import sys
+
+        from ..runner import VERIF
+
+        code = ("import sys,json,hashlib,warnings; warnings.filterwarnings('ignore'); sys.path.insert(0, sys.argv[1]); sys.path.insert(0, sys.argv[2]); "
+                "from mzcheck import runner; runner.bind_repo(); from maze_dataset.constants import VOCAB_LIST, VOCAB_TOKEN_TO_INDEX; "
+                "from maze_dataset.tokenization import MazeTokenizer, TokenizationMode; "
+                "print('OUT ' + json.dumps(dict(sha=hashlib.sha256('\\n'.join(map(str, VOCAB_LIST)).encode()).hexdigest(), n=len(VOCAB_LIST), "
+                "inv=all(VOCAB_TOKEN_TO_INDEX[t] == i for i, t in enumerate(VOCAB_LIST)), "
+                "legacy={m.name: hashlib.sha256('\\n'.join(MazeTokenizer(tokenization_mode=m, max_grid_size=7).token_arr).encode()).hexdigest() for m in TokenizationMode})))")
+        outs = {}
+        for hs in t["seeds"]:
+            env = dict(os.environ, PYTHONHASHSEED=str(hs))
+            p = subprocess.run([sys.executable, "-c", code, str(VERIF), os.environ.get("MZ_REPO", "/repo")], capture_output=True, text=True, env=env, cwd="/var/tmp")
+            line = [l for l in p.stdout.splitlines() if l.startswith("OUT ")]
+            if not line:
+                raise RuntimeError(f"hash-seed child failed: {p.stderr[-500:]}")
+            outs[str(hs)] = json.loads(line[0][4:])
+            res.ev()
+        rd = dict(kind="after", task=t)
+        for hs, o in outs.items():
+            if o["sha"] != VOCAB_SHA256 or o["n"] != 4096 or not o["inv"]:
+                res.fail("C14|VOCAB_LIST|sha256|other_hash_seed", f"in an interpreter with PYTHONHASHSEED={hs} the vocabulary hashes to {o['sha']} ({o['n']} tokens, inverse map ok: "
+                         f"{o['inv']}); pinned {VOCAB_SHA256}", rd)
+                break
+        leg = {json.dumps(o["legacy"], sort_keys=True) for o in outs.values()}
+        if len(leg) > 1:
+            res.fail("C14|MazeTokenizer.token_arr|differs_between_hash_seeds", f"legacy vocabularies (max_grid_size=7) differ between interpreters with hash seeds {list(outs)}", rd)
+        res.nontrivial(("hashseed", tuple(outs)))
     elif part == "access_paths":
         # every way of reading a special token / vocabulary entry (attribute, item by name, lower-case and pre-rename spellings,
         # iteration, len, membership) before the layout and the legacy vocabularies are built: reading must not change anything
@@ -611,6 +645,7 @@ def run(ctx):
     zig = [x for a, b in zip(range(50, 25, -6), range(1, 26, 6)) for x in (a, b)]
     fresh_tasks = [dict(part="legacy_order", tier=ctx.tier, mode=mode, gs=gs) for mode in ("AOTP_UT_rasterized", "AOTP_UT_uniform", "AOTP_CTT_indexed") for gs in (desc, zig)]
     fresh_tasks.append(dict(part="access_paths", tier=ctx.tier))
+    fresh_tasks.append(dict(part="hashseed_child", tier=ctx.tier, seeds=[1, 4242, "random"] if ctx.quick else [1, 2, 3, 4242, 99991, "random"]))
     ctx.pmap("mzcheck.checks.c14", "task", fresh_tasks, fresh=True)
     ctx.coverage.update(
         vocabulary_positions=4096, modular_single_ids=4096, modular_pair_alphabet=pa, modular_pairs=pa * pa,
